@@ -55,6 +55,12 @@ void harness(void) {
 #else
     for (int i = 0; i < R; i++) C[0].def[i] = 1;
 #endif
+#ifdef NULLS_ONLY
+    /* codec shapes: only the null pattern is symbolic (a symbolic page body sends the compressors' hash-table lookups to the
+       solver, which does not finish); values follow a fixed pattern */
+    #undef symx_make_symbolic
+    #define symx_make_symbolic(p, n, name) do { for (size_t i_ = 0; i_ < (size_t)(n); i_++) ((uint8_t*)(p))[i_] = (uint8_t)((name)[0] == 'l' ? i_ % 3 : (CT == 0 ? i_ & 1 : 0x91 * (i_ + 1))); } while (0)
+#endif
 #if CT == 5
     uint8_t lens[R ? R : 1]; symx_make_symbolic(lens, R, "len");
     symx_make_symbolic(C[0].ba_bytes, 2 * R ? 2 * R : 1, "bytes");
@@ -87,6 +93,17 @@ void harness(void) {
 #endif
     size_t len = symx_file_get(PATH, filebuf, sizeof filebuf);
     SYMX_ASSERT(len != (size_t)-1 && len >= 12, "a file exists after close");
+#ifdef TWICE
+    /* determinism: the same table with the same options written again gives byte-identical files (the engine also flags any
+       uninitialised byte that reaches fwrite) */
+    {
+        static uint8_t filebuf2[8192];
+        symx_assume(pq_write("/mem/t2.parquet", &S, C, rg, nrg, B, &wo, &ws) == 0);
+        size_t len2 = symx_file_get("/mem/t2.parquet", filebuf2, sizeof filebuf2);
+        SYMX_ASSERT(len2 == len, "writing the same table twice gives files of the same length");
+        SYMX_ASSERT(len2 != len || memcmp(filebuf, filebuf2, len) == 0, "writing the same table twice gives byte-identical files");
+    }
+#endif
     /* ---- read back */
     carquet_error_t err; memset(&err, 0, sizeof err);
     carquet_reader_t* r = carquet_reader_open_buffer(filebuf, len, NULL, &err);
